@@ -91,6 +91,8 @@ class ClockModel:
                     self.never(steps[index + 1:])
                     return INF
                 now = end
+            elif step['op'] == 'nested':
+                pass        # a complete simulation of its own: takes no time of this one
             else:
                 raise ValueError(step)
         return now
